@@ -150,14 +150,14 @@ def addMaxBinding (newK : K) (newV : V) : Tree K V → Option (Tree K V)
     | none => none
     | some r' => balanced l k v r'
 
-/-- `minBindingFromNodeUnsafe` (map.sam:472).  The `Node` arm of the inner match recurses on the
-left child *of the left child* (`l1`), exactly as written in the source. -/
+/-- `minBindingFromNodeUnsafe` (map.sam:472).  (Before fix C18-F3 the `Node` arm recursed on the
+left child of the left child.) -/
 def minBindingUnsafe : Tree K V → Option (K × V)
   | .node _ k v l _ =>
     match l with
     | .empty => some (k, v)
     | .leaf k1 v1 => some (k1, v1)
-    | .node _ _ _ l1 _ => minBindingUnsafe l1
+    | .node h' k' v' l' r' => minBindingUnsafe (.node h' k' v' l' r')
   | _ => none
 
 /-- `removeMinBindingFromNodeUnsafe` (map.sam:481) -/
@@ -320,9 +320,8 @@ def update (cmp : K → K → Int) (f : Option V → Option V) : Tree K V → K 
       | none => none
       | some rr => if r = rr then some (.node h k v l r) else balanced l k v rr
 
-/-- `customizedUnion` (map.sam:191).  Fuelled (outer `none` = out of fuel).  The last branch
-(`h1 < h2`) is transcribed as written: it splits **`other` by `k1`** and re-joins around
-`k1, v1`, calling the merger with `(v1New, v2)`. -/
+/-- `customizedUnion` (map.sam:191).  Fuelled (outer `none` = out of fuel).  (Before fix C18-F6 the
+`h1 < h2` branch split `other` by `k1` and re-joined around `k1, v1`.) -/
 def customizedUnion (cmp : K → K → Int) (f : K → V → V → Option V) :
     Nat → Tree K V → Tree K V → Option (Option (Tree K V))
   | 0, _, _ => none
@@ -338,7 +337,7 @@ def customizedUnion (cmp : K → K → Int) (f : K → V → V → Option V) :
       some (update cmp (fun d => match d with
         | none => some v
         | some v2 => f k v v2) s k)
-    | .node h1 k1 v1 l1 r1, .node h2 _k2 v2 l2 r2 =>
+    | .node h1 k1 v1 l1 r1, .node h2 k2 v2 l2 r2 =>
       if h1 ≥ h2 then
         match split cmp other k1 with
         | none => some none
@@ -355,7 +354,7 @@ def customizedUnion (cmp : K → K → Int) (f : K → V → V → Option V) :
               | none => some (join l k1 v1 r)
               | some v2New => some (concatOrJoin l k1 (f k1 v1 v2New) r)
       else
-        match split cmp other k1 with
+        match split cmp this k2 with
         | none => some none
         | some (l1New, d, r1New) =>
           match customizedUnion cmp f fuel l1New l2 with
@@ -367,15 +366,15 @@ def customizedUnion (cmp : K → K → Int) (f : K → V → V → Option V) :
             | some none => some none
             | some (some r) =>
               match d with
-              | none => some (join l k1 v1 r)
-              | some v1New => some (concatOrJoin l k1 (f k1 v1New v2) r)
+              | none => some (join l k2 v2 r)
+              | some v1New => some (concatOrJoin l k2 (f k2 v1New v2) r)
 
 /-- `union` (map.sam:233): `defaultUnionMerger` keeps the receiver's value. -/
 def union (cmp : K → K → Int) (fuel : Nat) (a b : Tree K V) : Option (Option (Tree K V)) :=
   customizedUnion cmp (fun _ v1 _ => some v1) fuel a b
 
 /-- `merge` (map.sam:108), value types identified.  Fuelled.  The `Node`-vs-taller-map arm is
-`Process.panic("Invalid state")`. -/
+handled like the `(_, Node)` arm since fix C18-F7 (it was `Process.panic("Invalid state")`). -/
 def merge (cmp : K → K → Int) (f : K → Option V → Option V → Option V) :
     Nat → Tree K V → Tree K V → Option (Option (Tree K V))
   | 0, _, _ => none
@@ -417,7 +416,22 @@ def merge (cmp : K → K → Int) (f : K → Option V → Option V → Option V)
             | none => none
             | some none => some none
             | some (some b) => some (concatOrJoin a k1 mid b)
-      else some none
+      else
+        match other with
+        | .node _ k2 v2 l2 r2 =>
+          match split cmp this k2 with
+          | none => some none
+          | some (l1s, v1s, r1s) =>
+            match merge cmp f fuel l1s l2 with
+            | none => none
+            | some none => some none
+            | some (some a) =>
+              let mid := f k2 v1s (some v2)
+              match merge cmp f fuel r1s r2 with
+              | none => none
+              | some none => some none
+              | some (some b) => some (concatOrJoin a k2 mid b)
+        | _ => some none
     | _, .node _ k2 v2 l2 r2 =>
       match split cmp this k2 with
       | none => some none
@@ -444,9 +458,9 @@ def forAll (f : K → V → Bool) : Tree K V → Bool
   | .leaf k v => f k v
   | .node _ k v l r => f k v && forAll f l && forAll f r
 
-/-- `exists` (map.sam:333) — the `Empty` arm is `true` in the source. -/
+/-- `exists` (map.sam:333) (the `Empty` arm was `true` before fix C18-F2). -/
 def «exists» (f : K → V → Bool) : Tree K V → Bool
-  | .empty => true
+  | .empty => false
   | .leaf k v => f k v
   | .node _ k v l r => f k v || «exists» f l || «exists» f r
 
@@ -521,11 +535,11 @@ def min : Tree K V → Option (K × V)
   | .leaf k v => some (k, v)
   | .node _ k v child _ => if isEmpty child then some (k, v) else min child
 
-/-- `max` (map.sam:396) — the recursive call in the source is `child.min()`. -/
+/-- `max` (map.sam:396) (the recursive call was `child.min()` before fix C18-F1). -/
 def max : Tree K V → Option (K × V)
   | .empty => none
   | .leaf k v => some (k, v)
-  | .node _ k v _ child => if isEmpty child then some (k, v) else min child
+  | .node _ k v _ child => if isEmpty child then some (k, v) else max child
 
 /-- `map` (map.sam:394), value type kept -/
 def mapValues (f : K → V → V) : Tree K V → Tree K V
